@@ -1,0 +1,84 @@
+//go:build verif
+
+package xmss
+
+// Verification hooks (build tag "verif"). Nothing here is compiled into a normal build.
+
+import (
+	"bytes"
+	"encoding/binary"
+)
+
+// VerifLeafOverride, when set, replaces the WOTS/L-tree leaf computation: it must fill
+// leaf (n bytes) for the given leaf index. Tree traversal code runs unchanged on top.
+var VerifLeafOverride func(hashFunction HashFunction, leaf []uint8, leafIdx uint32)
+
+func verifLeaf(hashFunction HashFunction, leaf []uint8, otsAddr *[8]uint32) bool {
+	if f := VerifLeafOverride; f != nil {
+		f(hashFunction, leaf, otsAddr[4])
+		return true
+	}
+	return false
+}
+
+// VerifAuthPath returns a copy of the authentication path currently held by the key.
+func (x *XMSS) VerifAuthPath() []uint8 {
+	return append([]uint8{}, x.bdsState.auth...)
+}
+
+// VerifSnapshot serialises the secret key bytes and every field of the traversal state.
+func (x *XMSS) VerifSnapshot() []byte {
+	var b bytes.Buffer
+	u32 := func(v uint32) { var t [4]byte; binary.BigEndian.PutUint32(t[:], v); b.Write(t[:]) }
+	blob := func(p []uint8) { u32(uint32(len(p))); b.Write(p) }
+	s := x.bdsState
+	blob(x.sk)
+	blob(s.stack)
+	u32(s.stackOffset)
+	blob(s.stackLevels)
+	blob(s.auth)
+	blob(s.keep)
+	u32(uint32(len(s.treeHash)))
+	for _, th := range s.treeHash {
+		u32(th.h)
+		u32(th.nextIdx)
+		u32(th.stackUsage)
+		u32(uint32(th.completed))
+		blob(th.node)
+	}
+	blob(s.retain)
+	u32(s.nextLeaf)
+	return b.Bytes()
+}
+
+// VerifClone returns a deep copy of the key object.
+func (x *XMSS) VerifClone() *XMSS {
+	s := x.bdsState
+	ns := &BDSState{
+		stack:       append([]uint8{}, s.stack...),
+		stackOffset: s.stackOffset,
+		stackLevels: append([]uint8{}, s.stackLevels...),
+		auth:        append([]uint8{}, s.auth...),
+		keep:        append([]uint8{}, s.keep...),
+		retain:      append([]uint8{}, s.retain...),
+		nextLeaf:    s.nextLeaf,
+	}
+	for _, th := range s.treeHash {
+		c := *th
+		c.node = append([]uint8{}, th.node...)
+		ns.treeHash = append(ns.treeHash, &c)
+	}
+	wp := *x.xmssParams.wotsParams
+	xp := *x.xmssParams
+	xp.wotsParams = &wp
+	d := *x.desc
+	return &XMSS{
+		xmssParams:   &xp,
+		hashFunction: x.hashFunction,
+		height:       x.height,
+		sk:           append([]uint8{}, x.sk...),
+		seed:         x.seed,
+		bdsState:     ns,
+		desc:         &d,
+	}
+}
